@@ -55,6 +55,22 @@ class C11(Prop):
                 for e in r["events"]:
                     if e.get("name") == "aten::add":
                         e["name"] = f"aten::add_rank{r['rank']}"
+        if len(case["ranks"]) >= 2 and rng.random() < 0.5:
+            # very different vocabulary sizes: rank 0 gets > 130 distinct operator names, so later ranks' own symbols get ids >= 128
+            r0 = case["ranks"][0]
+            hosts = [e for e in r0["events"] if e.get("cat") == "cpu_op"]
+            need = 140
+            k = 0
+            while len(hosts) and k < need:
+                e = hosts[k % len(hosts)]
+                if k < len(hosts):
+                    e["name"] = f"aten::u{k}"
+                else:     # not enough operators: add tiny extra ones inside the first operator's span
+                    r0["events"].append({"ph": "X", "cat": "cpu_op", "name": f"aten::u{k}", "pid": e["pid"], "tid": e["tid"] + 50,
+                                         "ts": hosts[0]["ts"], "dur": 0, "args": {"External id": 9000 + k}})
+                k += 1
+        case["dictmode"] = rng.choice(["dir", "dict_same", "dict_perm"]) if len(case["ranks"]) >= 2 else "dir"
+        case["strip_meta"] = rng.random() < 0.4
         case["seeds"] = [0, 1, 2, 3] if tier == "thorough" else [0, 1, 2]
         case["renum"] = [f"r{rng.randrange(1000)}" for _ in range(2)]
         return case
@@ -62,8 +78,21 @@ class C11(Prop):
     def observe(self, case):
         obs: Dict[str, Any] = {"prop": "C11", "kind": "load", "configs": []}
         with hta.CaseDir("c11") as d:
-            files = gen.write_trace_set([gen.RankTrace(**r) for r in case["ranks"]], d)
+            rts = [gen.RankTrace(**r) for r in case["ranks"]]
+            mode = case.get("dictmode", "dir")
+            if mode != "dir" and case.get("strip_meta"):
+                for rt in rts:
+                    rt.meta.pop("distributedInfo", None)      # ranks come from the caller's mapping only
+            files = gen.write_trace_set(rts, d)
             multi = len(files) > 1
+            mapping = None
+            if mode == "dict_same":
+                mapping = {k: f for k, f in enumerate(files)}
+            elif mode == "dict_perm":       # the caller numbers the files differently from their metadata
+                perm = list(range(len(files)))
+                random.Random(case["id"]).shuffle(perm)
+                mapping = {k: files[perm[k]] for k in range(len(files))}
+            os.environ["VF_C11_MAPPING"] = json.dumps(mapping) if mapping else ""
             cfgs = []
             for s in case["seeds"]:
                 cfgs.append((s, False, "none", ""))
